@@ -141,7 +141,7 @@ theorem no_infinite_descent {α : Type} {r : α → α → Prop} (wf : WellFound
   intro h
   have key : ∀ a, ∀ g : Nat → α, g 0 = a → (∀ i, r (g (i + 1)) (g i)) → False := by
     intro a
-    refine wf.induction a ?_
+    refine wf.induction (C := fun a => ∀ g : Nat → α, g 0 = a → (∀ i, r (g (i + 1)) (g i)) → False) a ?_
     intro x ih g hg hch
     exact ih (g 1) (by rw [← hg]; exact hch 0) (fun i => g (i + 1)) rfl (fun i => hch (i + 1))
   exact key (g 0) g rfl h
